@@ -4,6 +4,8 @@ import (
 	"fmt"
 	"go/ast"
 	"go/token"
+	"os"
+	"path/filepath"
 	"sort"
 	"strings"
 )
@@ -295,6 +297,9 @@ func extractC13(c *Ctx) error {
 		return err
 	}
 	if err := c13EvidenceLookup(c); err != nil {
+		return err
+	}
+	if err := c13EvidenceListWriters(c); err != nil {
 		return err
 	}
 	return c13BatchRecordWriters(c)
@@ -1145,5 +1150,80 @@ func c13EvidenceLookup(c *Ctx) error {
 	}
 	c.P("(* x/evm/keeper/keeper.go: the evidence handler's validator lookup reads the live external-chain-info registry only *)")
 	c.P("Definition evidence_lookup_is_live_registry : bool := true.")
+	return nil
+}
+
+// c13EvidenceListWriters enumerates every statement in x/ (non-test, non-generated) that writes the
+// Evidence list of a queued message -- an assignment to a field named Evidence, to an element of it,
+// or an `Evidence:` key in a QueuedSignedMessage literal.  Only QueuedSignedMessage.AddEvidence may
+// (its shape is checked by c13AddEvidence): a clearing or rewriting assignment anywhere else is an
+// unknown shape.
+func c13EvidenceListWriters(c *Ctx) error {
+	var dirs []string
+	root := filepath.Join(c.Repo, "x")
+	err := filepath.WalkDir(root, func(p string, d os.DirEntry, err error) error {
+		if err == nil && d.IsDir() {
+			rel, _ := filepath.Rel(c.Repo, p)
+			dirs = append(dirs, rel)
+		}
+		return nil
+	})
+	if err != nil {
+		return err
+	}
+	var writes []string
+	for _, dir := range dirs {
+		fs, err := c.ParseDir(dir)
+		if err != nil {
+			return err
+		}
+		for _, f := range fs {
+			fn := c.Fset.Position(f.Pos()).Filename
+			if strings.HasSuffix(fn, ".pb.go") || strings.HasSuffix(fn, ".pb.gw.go") || strings.Contains(fn, "verif_hooks") || strings.Contains(fn, "/mocks/") {
+				continue
+			}
+			for _, d := range f.Decls {
+				fd, ok := d.(*ast.FuncDecl)
+				if !ok || fd.Body == nil {
+					continue
+				}
+				ast.Inspect(fd.Body, func(n ast.Node) bool {
+					switch x := n.(type) {
+					case *ast.AssignStmt:
+						for i, l := range x.Lhs {
+							ls := c13norm(c, l)
+							if strings.HasSuffix(ls, ".Evidence") || strings.Contains(ls, ".Evidence[") {
+								r := "?"
+								if i < len(x.Rhs) {
+									r = c13norm(c, x.Rhs[i])
+								}
+								writes = append(writes, filepath.Base(fn)+":"+fd.Name.Name+":"+ls+"="+r)
+							}
+						}
+					case *ast.CompositeLit:
+						if strings.Contains(c13norm(c, x.Type), "QueuedSignedMessage") {
+							for _, el := range x.Elts {
+								if kv, ok := el.(*ast.KeyValueExpr); ok && c13norm(c, kv.Key) == "Evidence" {
+									writes = append(writes, filepath.Base(fn)+":"+fd.Name.Name+":{Evidence:"+c13norm(c, kv.Value)+"}")
+								}
+							}
+						}
+					}
+					return true
+				})
+			}
+		}
+	}
+	sort.Strings(writes)
+	want := []string{
+		"consensus.go:AddEvidence:q.Evidence=[]*Evidence{}",
+		"consensus.go:AddEvidence:q.Evidence=append(q.Evidence,&data)",
+		"consensus.go:AddEvidence:q.Evidence[i].Proof=data.Proof",
+	}
+	if strings.Join(writes, " | ") != strings.Join(want, " | ") {
+		return fmt.Errorf("writers of a queued message's Evidence list in x/: %v, expected only QueuedSignedMessage.AddEvidence %v", writes, want)
+	}
+	c.P("(* x/: the Evidence list of a queued message is written by QueuedSignedMessage.AddEvidence only *)")
+	c.P("Definition evidence_list_written_only_by_add_evidence : bool := true.")
 	return nil
 }
